@@ -195,7 +195,7 @@ fn weights(p: Profile) -> W {
     let base = W { stake: 20, unstake: 10, submit: 6, deadline: 6, deliver: 6, withdraw: 8, relay: 22, timeout: 3, recover: 4, rewards: 5, config: 2, halt: 1, resume: 1, feew: 2, owner: 1, intruder: 2, fault: 4, stray: 2, query: 2, slash: 1, advance: 4, hostile: 0, migrate: 0, forced: 1, validators: 1 };
     match p {
         Profile::General => base,
-        Profile::Exit => W { unstake: 16, submit: 10, deadline: 10, deliver: 12, withdraw: 16, ..base },
+        Profile::Exit => W { unstake: 16, submit: 10, deadline: 10, deliver: 12, withdraw: 16, migrate: 1, ..base },
         Profile::Ibc => W { relay: 14, timeout: 8, recover: 12, fault: 10, stray: 6, forced: 5, stake: 24, rewards: 8, ..base },
         Profile::Admin => W { config: 8, halt: 4, resume: 4, feew: 4, owner: 10, intruder: 16, validators: 6, forced: 3, deadline: 8, migrate: 2, ..base },
         Profile::Rates => W { stake: 30, unstake: 14, submit: 10, deadline: 8, resume: 4, rewards: 8, deliver: 6, ..base },
